@@ -56,6 +56,9 @@ CLAIMED = {
  "C10": ("exploration", "round-trip property-based testing: history -> summary CSV (text) -> re-run with the later rows, compared row by row with the full run",
          "Error-free histories x every interesting cut date x both summary modes; the summary is written to CSV text, fed back with the rows settling after the cut, and every later row, the final holdings and (annual) the yearly net gains must agree with the full run.",
          "One known finding (K3, annual loss rows hit by the 30-day rule) is excluded by a classifier on its direct root-cause observation; rounding-residue cases (R5) by theirs.", "DESIGN.md section 4 C10"),
+ "C18": ("exploration", "property-based testing against the generator's own record (multiset equality, exact cash conservation) plus a layout metamorphic relation",
+         "Generated well-formed Questrade exports (all activity kinds, FXT pairs, accounts, currencies, alias symbol) in generated column layouts (permuted, extra, blank-headed, numeric cells) go through sheet_to_txs in memory and, for a sample, through a real .xlsx and run_with_args with its options; emitted rows, the signed USD.FX total, layout independence, ordering and acceptance by acb are checked.",
+         "Numeric cells use the same f64->Decimal conversion on both sides; ledger-level acceptance of USD.FX is not claimed.", "DESIGN.md section 4 C18"),
 }
 NOT_YET = "check not built yet in this round (planned: see DESIGN.md section 4)"
 
